@@ -119,14 +119,15 @@ func VerifK27Compact() {
 	ctx := context.Background()
 	head := zzvsym.Int64("head")
 	epoch := zzvsym.Int64("epoch")
-	zzvsym.Assume(head >= 2)
+	tail := zzvsym.IntRange("logTail", 0, 2) // stored rows head-tail+1..head (head may be as small as the tail)
+	zzvsym.Assume(head >= int64(tail))
 	zzvsym.Assume(head < 1<<40)
 	zzvsym.Assume(epoch >= 0)
 	zzvsym.Assume(epoch < 1<<40)
 	doc := &database.DocInfo{ID: vDoc, ProjectID: vProj, Key: "k", ServerSeq: head, Epoch: epoch}
 	vMustInsert(d, tblDocuments, doc)
-	for i := int64(0); i < 2; i++ {
-		vMustInsert(d, tblChanges, &database.ChangeInfo{ID: types.ID(fmt.Sprintf("%024d", i+1)), ProjectID: vProj, DocID: vDoc, ServerSeq: head - 1 + i, ClientSeq: uint32(i + 1), ActorID: vPeer1, VersionVector: time.NewVersionVector()})
+	for i := int64(0); i < int64(tail); i++ {
+		vMustInsert(d, tblChanges, &database.ChangeInfo{ID: types.ID(fmt.Sprintf("%024d", i+1)), ProjectID: vProj, DocID: vDoc, ServerSeq: head - int64(tail) + 1 + i, ClientSeq: uint32(i + 1), ActorID: vPeer1, VersionVector: time.NewVersionVector()})
 	}
 	vMustInsert(d, tblVersionVectors, &database.VersionVectorInfo{ID: types.ID(fmt.Sprintf("%024d", 7)), ProjectID: vProj, DocID: vDoc, ClientID: vPeer1, VersionVector: time.NewVersionVector()})
 	// another document of the same project must not be touched
@@ -148,7 +149,7 @@ func VerifK27Compact() {
 			zzvsym.Assert(errors.Is(err, database.ErrConflictOnUpdate), "stale-head-is-conflict")
 		}
 		zzvsym.Assert(after.Epoch == epoch && after.ServerSeq == head, "refused-compaction-keeps-document")
-		zzvsym.Assert(len(rows) == 2, "refused-compaction-keeps-log")
+		zzvsym.Assert(len(rows) == tail, "refused-compaction-keeps-log")
 		zzvsym.Assert(len(d.VerifVersionVectors(string(vDoc))) == 1, "refused-compaction-keeps-version-vectors")
 	} else {
 		zzvsym.Assert(err == nil, "compaction-no-error")
